@@ -63,18 +63,8 @@ def trace_sig(t, bad, l):
 
 
 def run_family_replay(ctx, names, grow, slen=0, label="s2c"):
-    states = ctx.gen_states("tmpl", "Gen_TemplateLang", "Gen_TemplateLang.cfg",
-                            overrides={"Fams": fams(names), "Grow": grow, "SLen": slen},
-                            variables=("cfg", "src", "res"), timeout=ctx.pick(400, 1500))
-    paths = to_paths(states)
-    ctx.replay(paths, replayer, label=label,
-               nontrivial=lambda e, p: len(e["src"]["main"]) >= 2 and p[0]["exp"]["kind"] != "unspec")
-    kinds = {}
-    for s in states:
-        k = s["cfg"]["fam"] + ":" + s["res"]["kind"]
-        kinds[k] = kinds.get(k, 0) + 1
-    ctx.cov.setdefault("templates_by_family_and_result", {}).update(kinds)
-    return len(states)
+    return D.gen_and_replay(ctx, "Gen_TemplateLang", "Gen_TemplateLang.cfg",
+                            {"Fams": fams(names), "Grow": grow, "SLen": slen}, timeout=ctx.pick(400, 1500), label=label)
 
 
 def run_traces(ctx, n, err_rate, salt=0):
